@@ -672,12 +672,20 @@ def in_fork(fn, *args):
             os._exit(0)
     os.close(w)
     data = b''
-    with common.guard(120):
-        while True:
-            d = os.read(r, 65536)
-            if not d:
-                break
-            data += d
+    try:
+        with common.guard(120):
+            while True:
+                d = os.read(r, 65536)
+                if not d:
+                    break
+                data += d
+    except common.Stuck:
+        # the forked copy never finished (a call into the code under test that does not come back): it is ended here and reported by the caller
+        data = b'EXC-IN-FORK:still-running-after-120s'
+        try:
+            os.kill(pid, signal.SIGKILL)
+        except OSError:
+            pass
     os.close(r)
     os.waitpid(pid, 0)
     return data.decode('utf-8', 'replace')
@@ -693,10 +701,7 @@ def forked_histories(ctx, sigs, cases, mouts):
         k += 1
         if k > (10 if ctx.quick() else 80):
             break
-        try:
-            real = in_fork(run_real, d, plan, ops, 10)
-        except common.Stuck:
-            real = 'EXC-IN-FORK:still-running-after-120s'
+        real = in_fork(run_real, d, plan, ops, 10)
         if real.startswith('EXC-IN-FORK'):
             bad = ('*', real)
         else:
@@ -712,7 +717,7 @@ def forked_histories(ctx, sigs, cases, mouts):
             if again != mo:
                 ctx.broken.append('correspondence life-cycle model vs real child in a forked process (%s, %s) ops %s: real [%s] model [%s]' % (d or 'normal', plan, ops, again, mo))
                 return
-    ctx.cov['forked_histories'] = k
+    ctx.cov['forked_histories'] = min(k, 10 if ctx.quick() else 80)
 
 
 def sigchld_ignored_wait(plan):
@@ -757,6 +762,9 @@ def sigchld_ignored_wait(plan):
 def stage_sigchld_ignored(ctx, sigs):
     for plan in (('e', 7), ('e', 0), ('s', 15)):
         line = in_fork(sigchld_ignored_wait, plan)
+        if line.startswith('EXC-IN-FORK'):
+            common.report(ctx, 'life/sigchld-ignored/never-finished', 'SIGCHLD ignored, the child (plan %s) ended while wait() was blocked: %s' % (list(plan), line), dict(stage='stage_sigchld_ignored', plan=list(plan)))
+            return
         sigs.add(('sigchld-ignored', plan[0], line.split('|')[0].split(':')[0]))
         ctx.cov['sigchld_ignored_runs'] = ctx.cov.get('sigchld_ignored_runs', 0) + 1
         want = ('e=%d s=-' % plan[1]) if plan[0] == 'e' else ('e=- s=%d' % plan[1])
